@@ -41,6 +41,9 @@ CHECKS = {
  'C09': ('libx', 'bounded-exhaustive round trips on the real printer and parser: every rule of every kind universe x comment variants, every short list after Merge+Sort+Format, every sequence of <= 5 preamble items x 27 headers, xattrs rendered under every owned map-iteration start',
          'Each case is printed by the real templates and parsed back by the real parser; fields, re-printed text and (for files) preamble order and header fields are compared. 640 thousand round trips in the thorough tier.',
          'self-consistency oracle (printer vs parser of the library); universe in engine/gox/universe', 'DESIGN.md §4 C09'),
+ 'C12': ('libx+dfax', 'bounded-exhaustive enumeration of the AppArmor-3 rule universes and of merged+formatted pairs; for each, the policy apparmor_parser compiles from the library text is compared with the policy compiled from an independent reference spelling by exhaustive DFA product exploration',
+         'Acceptance and meaning are decided by the reference parser itself: both texts are compiled and every reachable state pair of the two policy DFAs (and every non-DFA field) is compared. 22 thousand cases in the thorough tier.',
+         'reference printer in engine/gox/cmd/c12x validated by requiring different rules to compile differently; apparmor_parser 3.0.8', 'DESIGN.md §4 C12'),
 }
 PENDING = {}
 def main():
